@@ -14,6 +14,7 @@ import (
 	"encoding/base64"
 	"encoding/binary"
 	"encoding/json"
+	"errors"
 	"fmt"
 	"io"
 	"os"
@@ -22,6 +23,7 @@ import (
 	"sort"
 	"strings"
 	"sync"
+	"sync/atomic"
 	"testing"
 	"time"
 
@@ -53,6 +55,24 @@ type Job struct {
 	Arg         string `json:"arg"` // damage parameter
 	Procs       int    `json:"procs"`
 	HeaderFirst bool   `json:"header_first"` // call Header() (ignoring its result) before the Scan loop
+	ReadErr     bool   `json:"read_err"`     // cut jobs: the reader ends with a transport error instead of io.EOF
+}
+
+var errTransport = errors.New("c06: connection reset by peer")
+
+// failingReader hands out data and then fails with err (never io.EOF).
+type failingReader struct {
+	data []byte
+	err  error
+}
+
+func (r *failingReader) Read(p []byte) (int, error) {
+	if len(r.data) == 0 {
+		return 0, r.err
+	}
+	n := copy(p, r.data)
+	r.data = r.data[n:]
+	return n, nil
 }
 
 type Verdict struct {
@@ -122,7 +142,11 @@ func trunc(s string, n int) string {
 }
 
 func scan(data []byte, procs int, headerFirst ...bool) ([]osm.Object, error) {
-	s := osmpbf.New(context.Background(), bytes.NewReader(data), procs)
+	var rd io.Reader = bytes.NewReader(data)
+	if len(headerFirst) > 1 && headerFirst[1] {
+		rd = &failingReader{data: data, err: errTransport}
+	}
+	s := osmpbf.New(context.Background(), rd, procs)
 	defer s.Close()
 	if len(headerFirst) > 0 && headerFirst[0] {
 		s.Header() // a failed Header must not turn a later Scan into a fresh start
@@ -161,13 +185,23 @@ func runJob(j *Job) Verdict {
 				boundary = true
 			}
 		}
-		got, err := scan(data, j.Procs, j.HeaderFirst)
+		got, err := scan(data, j.Procs, j.HeaderFirst, j.ReadErr)
 		want := prefixOf(f, complete)
 		if d := pbfgen.DiffSeq(got, want); d != "" {
 			v.Sig, v.Msg = "C06/cut-wrong-prefix", fmt.Sprintf("cut at %d of %d (complete data blocks %d): %s (err=%v)", j.Cut, len(enc.Data), complete, d, err)
 			return v
 		}
 		where := describeCut(enc, j.Cut, f.Header != nil)
+		if j.ReadErr {
+			// the stream did not end, it broke: an error at every offset, block
+			// boundaries included
+			if err == nil {
+				v.Sig, v.Msg = "C06/cut-silent-success/reader-error-"+where, fmt.Sprintf("the reader failed with %q after %d of %d bytes (%s): the scan reported success with %d objects", errTransport, j.Cut, len(enc.Data), where, len(got))
+				return v
+			}
+			v.OK = true
+			return v
+		}
 		if boundary && err != nil {
 			v.Sig, v.Msg = "C06/cut-boundary-error", fmt.Sprintf("cut at block boundary %d of %d reported %v", j.Cut, len(enc.Data), err)
 			return v
@@ -642,6 +676,7 @@ func runJobs(jobs []Job) ([]Verdict, error) {
 	var wg sync.WaitGroup
 	var infra error
 	var imu sync.Mutex
+	var hangs int32
 	for w := 0; w < workers; w++ {
 		wg.Add(1)
 		go func() {
@@ -653,6 +688,11 @@ func runJobs(jobs []Job) ([]Verdict, error) {
 				}
 			}()
 			for i := range ch {
+				if atomic.LoadInt32(&hangs) >= 3 {
+					// every hang costs the 25 s watchdog: three are evidence enough
+					verdicts[i] = Verdict{ID: jobs[i].ID, OK: true, Skipped: "not run: three scans of this file already hung"}
+					continue
+				}
 				if c == nil {
 					var err error
 					if c, err = startChild(); err != nil {
@@ -675,6 +715,7 @@ func runJobs(jobs []Job) ([]Verdict, error) {
 						verdicts[i] = v
 						got = true
 						if v.Sig == "C06/hang" {
+							atomic.AddInt32(&hangs, 1)
 							c.kill()
 							c = nil
 						}
@@ -799,6 +840,20 @@ func buildJobs(c Case) []Job {
 	}
 	for cut := 0; cut <= len(enc.Data); cut++ {
 		add(Job{Kind: "cut", Cut: cut, Procs: procsCycle[cut%len(procsCycle)], HeaderFirst: cut%3 == 1})
+	}
+	// the same cuts with a reader that fails instead of ending: at every block
+	// boundary and at every seventh offset
+	isBoundary := map[int]bool{0: true, len(enc.Data): true}
+	if c.File.Header != nil {
+		isBoundary[enc.Header.End] = true
+	}
+	for _, fr := range enc.Blocks {
+		isBoundary[fr.End] = true
+	}
+	for cut := 0; cut <= len(enc.Data); cut++ {
+		if isBoundary[cut] || cut%7 == 3 {
+			add(Job{Kind: "cut", Cut: cut, Procs: procsCycle[(cut+1)%len(procsCycle)], HeaderFirst: cut%3 == 2, ReadErr: true})
+		}
 	}
 	positions := []int{-1}
 	if c.AllPositions {
